@@ -271,6 +271,35 @@ def gen_cond_date(rng, mtime_text, mtime):
     return rng.choice(['', 'yesterday', '0', 'Thu, 01 Jan 1970 00:00:00 GMT', '*'])
 
 
+SHAPES = ['bytes', 'list', 'gen', 'fobj']
+
+
+def gen_script(rng, case):
+    """What a `gen` handler does before it returns the entity, as letters executed in order:
+    B `response.body = entity`, S `validate_since()`, E `validate_etags()`, A `validate_etags(autotags=True)`.
+    Mostly the sensible shapes (validate before a body exists / after it was produced); rarely any
+    short string over the alphabet."""
+    if rng.random() < 0.03:
+        return ''.join(rng.choice('BSEA') for _ in range(rng.randint(0, 4)))
+    pre, post = '', []
+    if case['lm'] is not None:
+        u = rng.random()
+        if u < 0.40:
+            pre += 'S'
+        elif u < 0.92:
+            post.append('S')
+        # else: nobody validates the Last-Modified the handler sets
+    v = rng.random()
+    if v < 0.30:
+        post.append('E' if case['hetag'] and rng.random() < 0.5 else 'A')
+    elif v < 0.36 and case['hetag']:
+        pre += 'E'
+    rng.shuffle(post)
+    if post or rng.random() < 0.2:
+        return pre + 'B' + ''.join(post)
+    return pre
+
+
 def gen_request(rng):
     """One whole request (stream Q)."""
     focus = rng.choices(['range', 'cond', 'mixed'], weights=[40, 35, 25])[0]
@@ -289,16 +318,21 @@ def gen_request(rng):
     case['etags'] = 0 if focus == 'range' and rng.random() < 0.7 else rng.choice([0, 1, 1, 2, 2, 2])
     if kind != 'tool' and rng.random() < (0.45 if case['etags'] else 0.1):
         case['hetag'] = gen_etag(rng) if rng.random() < 0.95 else ''
+    case['stream'] = 1 if rng.random() < 0.4 else 0
     if kind == 'gen':
         if rng.random() < 0.5:
             case['lm'] = httpdate(case['mtime']) if rng.random() < 0.9 else rng.choice(['x', 'Mon', '0'])
         if rng.random() < 0.15:
             case['base'] = rng.choice([201, 202, 206, 404, 412, 304, 204, 403])
+        case['shape'] = rng.choice(SHAPES)
+        case['script'] = gen_script(rng, case)
     # current validators as the resource will present them
     content = content_bytes(case)
     cur_etag = None
-    if case['etags']:
-        cur_etag = case['hetag'] or ('"%s"' % hashlib.md5(content).hexdigest() if case['etags'] == 2 else None)
+    script = case.get('script', '')
+    if case['etags'] or 'E' in script or 'A' in script:
+        cur_etag = case['hetag'] or ('"%s"' % hashlib.md5(content).hexdigest()
+                                     if case['etags'] == 2 or 'A' in script else None)
     if kind == 'gen':
         lm_text, mt = case['lm'], (case['mtime'] if case['lm'] and case['lm'].endswith('GMT') else None)
     elif kind == 'bio':
@@ -347,6 +381,58 @@ def enum_decision_table():
                 if v is not None:
                     c[k] = v
             out.append(c)
+    return out
+
+
+def enum_flow_table():
+    """Systematic small scope for the configuration dimensions, run in every tier: who validates
+    (serve_file / staticdir / serve_fileobj / BytesIO before a body exists; tools.etags with a handler ETag or
+    autotags at before_finalize; the handler itself calling validate_since / validate_etags before or after it
+    produced its body) x response.stream x body shape x method x protocol x what the request's validators
+    dictate (not modified / precondition failed / nothing, with and without a Range)."""
+    mtime = 1000000000
+    lm = httpdate(mtime)
+    other_date = httpdate(mtime + 1)
+    base = {'op': 'Q', 'base': 200, 'mtime': mtime, 'len': 14, 'ca': 1, 'cb': 0, 'hetag': None, 'lm': None}
+    auto = '"%s"' % hashlib.md5(content_bytes(base)).hexdigest()
+    out = []
+    gens = [
+        ('tool-hetag', dict(etags=1, hetag='"v1"', script=''), '"v1"', False),
+        ('tool-auto', dict(etags=2, script=''), auto, False),
+        ('pre-since', dict(etags=0, lm=lm, script='S'), None, True),
+        ('post-since', dict(etags=0, lm=lm, script='BS'), None, True),
+        ('post-etags', dict(etags=0, hetag='"v1"', script='BE'), '"v1"', False),
+        ('post-auto', dict(etags=0, script='BA'), auto, False),
+        ('post-both', dict(etags=1, hetag='"v1"', lm=lm, script='BSE'), '"v1"', True),
+    ]
+    statics = [
+        ('file', dict(etags=0), None), ('file', dict(etags=1, hetag='"v1"'), '"v1"'), ('file', dict(etags=2), auto),
+        ('tool', dict(etags=0), None), ('tool', dict(etags=2), auto),
+        ('fobj', dict(etags=0), None), ('fobj', dict(etags=1, hetag='"v1"'), '"v1"'),
+        ('bio', dict(etags=0), None), ('bio', dict(etags=2), auto),
+    ]
+
+    def conds(etag, since, ranged):
+        cs = [{}]
+        if since:
+            cs += [{'ims': lm}, {'ius': other_date}]
+        if etag:
+            cs += [{'inm': etag}, {'im': '"other"'}, {'im': etag, 'inm': '"a", %s' % etag}]
+        if ranged:
+            cs += [dict(c, range='bytes=2-5') for c in cs[:4]] + [{'range': 'bytes=0-1,4-4'}, {'range': 'bytes=14-'}]
+        return cs
+    for stream, proto in itertools.product((0, 1), ('1.1', '1.0')):
+        for method in ('GET', 'HEAD', 'POST', 'PUT'):
+            for name, extra, etag, since in gens:
+                for shape in SHAPES:
+                    for c in conds(etag, since, False):
+                        out.append(dict(base, kind='gen', method=method, proto=proto, stream=stream, shape=shape,
+                                        **extra, **c))
+            for kind, extra, etag in statics:
+                if kind == 'tool' and method not in ('GET', 'HEAD'):
+                    continue
+                for c in conds(etag, kind != 'bio', True):
+                    out.append(dict(base, kind=kind, method=method, proto=proto, stream=stream, **extra, **c))
     return out
 
 
